@@ -111,6 +111,27 @@ theorem C16_session_invariant_outside_pattern (cfg : CloneCfg) (hc : cfg.clauses
 example : f3Pattern false (insertAt 2 .withCtx c16CexChain) = true := by decide
 example : f3Pattern false (insertAt 1 .withCtx c16CexChain) = false := by decide
 
+/-- what a chain means: outside the F3 pattern (and, on a tree whose `clone()` copies everything, always)
+    the outcome of `chain.finisher` is the finisher applied to the chain's accumulated conditions, its last
+    OnConflict, its last Attrs and its last Assign — Session/WithContext calls contribute nothing -/
+theorem C16_chain_semantics (cfg : CloneCfg) (hc : cfg.clauses = true) (sch : Schema) (s : Store)
+    (steps : List Step) (f : Fin) (h : cfg.full ∨ f3Pattern false steps = false) :
+    runChain cfg sch s steps f = finishS sch s (steps.foldl stmtStep Stmt.empty) f := by
+  rcases h with hf | hpat
+  · unfold runChain
+    rw [finish_eq_finishS sch s (cloneStmt_full hf _) (run_inv cfg steps _ base_inv), run_stmt_full hf _ _ base_inv]
+    rfl
+  · rw [C16_session_invariant_outside_pattern cfg hc sch s steps f hpat]
+    unfold runChain
+    have hnd : ∀ st ∈ steps.filter (fun x => !x.isDeriv), st.isDeriv = false := by
+      intro st hst
+      have := (List.mem_filter.mp hst).2
+      simpa using this
+    obtain ⟨h1, h2, h3⟩ := run_noderiv cfg _ Handle.base hnd (by decide) base_inv
+    rw [finish_low hc sch s h1 h2, h3, foldl_filter_deriv]
+    rfl
+
+
 /-- regenerated fact: `clone()` copies the clause map (conditions and ON CONFLICT travel through derivations) -/
 theorem C16_clone_copies_clauses : genCfg.clauses = true := by decide
 
@@ -263,7 +284,7 @@ theorem C16_conflict_update_all (sch : Schema) (hw : sch.WF) (s : Store) (v : Ro
 /-- what `Save` leaves behind, stated once for the four ways the code can take (zero key / live row with
     the key / no row with the key / soft-deleted row with the key). `o.val` is the caller's value after
     the call (defaults, timestamps and the generated key are written back into it). -/
-def SavedFull (sch : Schema) (s : Store) (v : Row) (o : Out) : Prop :=
+def C16SavedFull (sch : Schema) (s : Store) (v : Row) (o : Out) : Prop :=
   o.err = .ok ∧ o.val 0 ≠ 0 ∧ (v 0 ≠ 0 → o.val 0 = v 0) ∧
   ∃ r, o.store.rows (o.val 0) = some r ∧
     -- the stored row is the caller's value, tracked timestamps aside
@@ -277,7 +298,7 @@ def SavedFull (sch : Schema) (s : Store) (v : Row) (o : Out) : Prop :=
 /-- Save stores the full value whether or not its key already exists (live, soft-deleted or absent),
     for every well-formed table and every value. -/
 theorem C16_save_stores_all (sch : Schema) (hw : sch.WF) (s : Store) (hs : s.WF) (v : Row) :
-    SavedFull sch s v (save sch s v) := by
+    C16SavedFull sch s v (save sch s v) := by
   have hk0 := kind0 hw
   by_cases hz : v 0 = 0
   · -- zero key: plain insert under the next rowid
@@ -522,16 +543,16 @@ theorem C16_assign_both_cases_create (sch : Schema) (s : Store) (cs txcs : List 
 /-! ## sequences -/
 
 /-- a program = chain + finisher; a history runs programs one after the other on the same table -/
-def runSeq (cfg : CloneCfg) (sch : Schema) (s : Store) : List (List Step × Fin) → Store
+def c16RunSeq (cfg : CloneCfg) (sch : Schema) (s : Store) : List (List Step × Fin) → Store
   | [] => s
-  | p :: ps => runSeq cfg sch (runChain cfg sch s p.1 p.2).store ps
+  | p :: ps => c16RunSeq cfg sch (runChain cfg sch s p.1 p.2).store ps
 
 /-- every history of Save / Create+OnConflict / FirstOrInit / FirstOrCreate programs (whose DoUpdates and
     Assign lists leave the primary key alone) keeps the table well-formed — so the per-operation theorems
     above (`C16_save_*`, `C16_conflict_*`, …, all stated for well-formed tables) apply at EVERY step of
     every history, of any length, from any well-formed start. -/
 theorem C16_wf_invariant (cfg : CloneCfg) (sch : Schema) (hw : sch.WF) (progs : List (List Step × Fin)) :
-    ∀ s : Store, s.WF → (∀ p ∈ progs, ∀ st ∈ p.1, st.ok) → (runSeq cfg sch s progs).WF := by
+    ∀ s : Store, s.WF → (∀ p ∈ progs, ∀ st ∈ p.1, st.ok) → (c16RunSeq cfg sch s progs).WF := by
   induction progs with
   | nil => intro s hs _; exact hs
   | cons p ps ih =>
